@@ -315,7 +315,8 @@ def run_case(case):
             dab = np.sqrt(np.abs(np.einsum("abcdabcd->abcd", ab)))
             dcd = np.sqrt(np.abs(np.einsum("abcdabcd->abcd", cd)))
             sc = dab[:, :, :, :, None, None, None, None] * dcd[None, None, None, None, :, :, :, :]
-            info = {"A_given": c04.amp(shells[:2], shells[2:]), "A_swapped": c04.amp(shells[2:], shells[:2]), "ls": cm.ls_of(shells)}
+            info = {"A_given": c04.amp(shells[:2], shells[2:]), "A_swapped": c04.amp(shells[2:], shells[:2]), "ls": cm.ls_of(shells),
+                    "A_total": c04.amp_total(shells)[0]}
             for order, nm in (((1, 0, 2, 3), "(ba|cd)"), ((0, 1, 3, 2), "(ab|dc)"), ((2, 3, 0, 1), "(cd|ab)"), ((3, 2, 1, 0), "(dc|ba)"),
                               ((1, 0, 3, 2), "(ba|dc)"), ((2, 3, 1, 0), "(cd|ba)"), ((3, 2, 0, 1), "(dc|ab)")):
                 o = cm.call(ElectronRepulsionIntegral.construct_array_contraction, *[sh[k] for k in order])
@@ -339,8 +340,12 @@ def classify(case, v):
         return "C11/far-field-cancellation"
     if q in ("herm_momentum", "herm_angmom", "perm_momentum", "perm_angmom", "M-herm"):
         return "C08/lower-triangle-not-conjugated"
-    if q == "orient_eri" and v.get("A_given") is not None and max(v["A_given"], v["A_swapped"]) >= 8.0:
-        return "C04/etransfer-orientation"
+    if q == "orient_eri" and v.get("A_total") is not None:
+        # two orientations of a quartet whose BEST orientation already amplifies rounding (see c04.amp_total): the
+        # difference of two evaluations may be twice the single-evaluation envelope accepted for C04
+        A = v["A_total"]
+        if A >= c04.A0 and v.get("err", 1.0) <= 2 * min(1e-2, 1e4 * c04.EPS * float(np.exp(min(A, 60.0)))):
+            return "C11/recursion-amplification"
     return None
 
 
